@@ -1,6 +1,7 @@
 package main
 
 import (
+	"d2v/harness/hl"
 	"encoding/base64"
 	"math/rand"
 
@@ -8,26 +9,26 @@ import (
 )
 
 // C43: urlenc.Encode/Decode round trip, alphabet, and the base64 layer against the Lean model.
-func init() { register("C43", runC43) }
+func main() { hl.Main("C43", runC43) }
 
 func c43Observe(raw []byte) map[string]any {
-	in := map[string]any{"raw": hx(raw)}
+	in := map[string]any{"raw": hl.Hx(raw)}
 	out := map[string]any{}
 	enc, err := urlenc.Encode(string(raw))
 	if err != nil {
 		out["encErr"] = err.Error()
 		return map[string]any{"k": "urlenc", "in": in, "out": out}
 	}
-	out["enc"] = hx([]byte(enc))
+	out["enc"] = hl.Hx([]byte(enc))
 	dec, err := urlenc.Decode(enc)
 	if err != nil {
 		out["decErr"] = err.Error()
 	} else {
-		out["dec"] = hx([]byte(dec))
+		out["dec"] = hl.Hx([]byte(dec))
 	}
 	// the compressed bytes, so the model's base64 layer can be compared exactly
 	if z, err := base64.URLEncoding.DecodeString(enc); err == nil {
-		out["z"] = hx(z)
+		out["z"] = hl.Hx(z)
 	}
 	return map[string]any{"k": "urlenc", "in": in, "out": out}
 }
@@ -38,18 +39,18 @@ func c43B64(s []byte) map[string]any {
 	if err != nil {
 		out["err"] = true
 	} else {
-		out["dec"] = hx(d)
+		out["dec"] = hl.Hx(d)
 	}
-	return map[string]any{"k": "b64dec", "in": map[string]any{"s": hx(s)}, "out": out}
+	return map[string]any{"k": "b64dec", "in": map[string]any{"s": hl.Hx(s)}, "out": out}
 }
 
-func runC43(c *Ctx) error {
+func runC43(c *hl.Ctx) error {
 	if cs := c.ReplayCase(); cs != nil {
 		in := cs["in"].(map[string]any)
 		if cs["k"] == "b64dec" {
-			c.Emit(c43B64(unhx(in["s"].(string))))
+			c.Emit(c43B64(hl.Unhx(in["s"].(string))))
 		} else {
-			c.Emit(c43Observe(unhx(in["raw"].(string))))
+			c.Emit(c43Observe(hl.Unhx(in["raw"].(string))))
 		}
 		return nil
 	}
@@ -102,7 +103,7 @@ func runC43(c *Ctx) error {
 	return nil
 }
 
-func c43Gen(c *Ctx, r *rand.Rand) []byte {
+func c43Gen(c *hl.Ctx, r *rand.Rand) []byte {
 	switch r.Intn(5) {
 	case 0: // arbitrary bytes incl. invalid UTF-8
 		b := make([]byte, r.Intn(300))
